@@ -5,7 +5,8 @@ Line-protocol handler of C03: runs the executable model of `SequentialPlanValida
 (`Core/Validate.lean`, variant `repaired`) on one case
 
   (validate <problem> (fn (ref (val*) val)*) (plans (plan step*)*) [(temporal-metric makespan|temporal-oversub)])
-  step ::= (do action (obj*))        an instance of an action of the problem
+  step ::= (do action (arg*))        an instance of an action of the problem; an actual parameter is the atom that
+                                     spells it (`Sim.argExpr`): object name | true/false | integer | n or n/d
          | (foreign name)            an instance of a parameterless action that is NOT in the problem
 
 Answer: one entry per plan, `(valid _)` | `(valid q)` | `(invalid inapplicable-action|unsatisfied-goals <why> <step>)` |
@@ -20,12 +21,29 @@ functions as tables) is shared with `Drv/C01.lean`.
 namespace UPVerif.Drv.C03
 open UPVerif UPVerif.Sim UPVerif.Validate
 
+def inBounds (lb ub : Option Rat) (q : Rat) : Bool :=
+  (match lb with | some l => l ≤ q | none => true) && (match ub with | some u => q ≤ u | none => true)
+
+/-- the atom spells a constant that `ActionInstance.__init__` accepts for a formal parameter of type `t`
+    (an object of the problem; a Boolean; a number inside the bounds of the type) -/
+def argOK (P : Problem) (t : Ty) (s : String) : Bool :=
+  match t with
+  | .user _ => (P.objects.lookup s).isSome
+  | .bool => s == "true" || s == "false"
+  | .int lb ub => (match ArgLit.parseInt s.toList with
+    | some z => inBounds (lb.map (fun (x : Int) => (x : Rat))) (ub.map (fun (x : Int) => (x : Rat))) (z : Rat)
+    | none => false)
+  | .real lb ub => (match ArgLit.parseNum s.toList with
+    | some n => inBounds lb ub n.toRat
+    | none => false)
+  | .time => false
+
 def parseStep (P : Problem) : Sexp → Option Inst
   | .list [.atom "do", .atom an, as] => do
     let args ← as.asStrs?
     let a ← P.action? an
-    -- actual parameters are objects of the problem, as many as the action has parameters
-    if args.length = a.params.length ∧ args.all (fun o => (P.objects.lookup o).isSome) then some (a, args) else none
+    -- as many actual parameters as the action has parameters, each a constant of the parameter's type
+    if args.length = a.params.length ∧ (a.params.zip args).all (fun pa => argOK P pa.1.2 pa.2) then some (a, args) else none
   | .list [.atom "foreign", .atom an] =>
     if (P.action? an).isSome then none
     else some ({ name := an, params := [], pre := [], effs := [] }, [])
